@@ -841,9 +841,11 @@ where
                     if self.table[par].value.is_none() {
                         if let Some(sibling) = self.table.get_child(par, !par_right) {
                             self.table.set_child(grp, sibling, grp_right);
+                            self.free.push(par);
                             return (value, true);
                         } else {
                             self.table.clear_child(grp, grp_right);
+                            self.free.push(par);
                         }
                     }
                 }
